@@ -3,6 +3,7 @@
 package query_test
 
 import (
+	"fmt"
 	"math/rand"
 	"regexp/syntax"
 	"strings"
@@ -108,12 +109,85 @@ func c27Gen(rng *rand.Rand, depth int) string {
 	}
 }
 
+// c27ClassPool: characters that matter to a class printer (separators of its own syntax, range
+// neighbours, non-printable, non-ASCII, fold orbits with three members, the last code points).
+var c27ClassPool = []rune{0, '\t', '\n', '+', ',', '-', '.', '0', 'A', 'K', '[', '\\', ']', '^', 'a', 'b', 'k', 'z', 0x7f, 'é', 0x212a, 0x10fffe, 0x10ffff}
+
+func c27ClassChar(r rune) string {
+	switch {
+	case r >= 'a' && r <= 'z' || r >= 'A' && r <= 'Z' || r >= '0' && r <= '9':
+		return string(r)
+	case r < 0x80:
+		return fmt.Sprintf(`\x%02x`, r)
+	default:
+		return fmt.Sprintf(`\x{%x}`, r)
+	}
+}
+
+// c27GenClass builds a bracket expression from pool characters, ranges between them and named classes.
+func c27GenClass(rng *rand.Rand) string {
+	var b strings.Builder
+	b.WriteString("[")
+	if rng.Intn(3) == 0 {
+		b.WriteString("^")
+	}
+	for n := 1 + rng.Intn(4); n > 0; n-- {
+		switch k := rng.Intn(10); {
+		case k < 5:
+			b.WriteString(c27ClassChar(c27ClassPool[rng.Intn(len(c27ClassPool))]))
+		case k < 9:
+			i, j := rng.Intn(len(c27ClassPool)), rng.Intn(len(c27ClassPool))
+			if i > j {
+				i, j = j, i
+			}
+			lo, hi := c27ClassPool[i], c27ClassPool[j]
+			if rng.Intn(2) == 0 && lo < hi {
+				hi = lo + 1 // two-element ranges
+			}
+			b.WriteString(c27ClassChar(lo) + "-" + c27ClassChar(hi))
+		default:
+			b.WriteString([]string{`\d`, `\w`, `\s`, `[:alpha:]`, `[:punct:]`, `\D`, `\pL`, `[:^upper:]`}[rng.Intn(8)])
+		}
+	}
+	b.WriteString("]")
+	return b.String()
+}
+
+func c27GenClassPattern(rng *rand.Rand, _ int) string {
+	c := func() string { return c27GenClass(rng) }
+	switch rng.Intn(8) {
+	case 0, 1, 2:
+		return c()
+	case 3:
+		return c() + c()
+	case 4:
+		return "(?i)" + c()
+	case 5:
+		return "(" + c() + ")+"
+	case 6:
+		return c() + "|a" + c()
+	default:
+		return "(?i:" + c() + ")" + c() + "?"
+	}
+}
+
+// TestVerif_C27_Classes: the same three-way comparison for bracket expressions, over subjects whose
+// alphabet is the pool the classes are built from.
+func TestVerif_C27_Classes(t *testing.T) {
+	saved := c27Sigma
+	defer func() { c27Sigma = saved }()
+	c27Sigma = c27ClassPool
+	c27Run(t, c27Subjects(verifkit.EnvInt("VERIF_SUBJLEN", 2)), c27GenClassPattern)
+}
+
 func TestVerif_C27_Regex(t *testing.T) {
+	c27Run(t, c27Subjects(verifkit.EnvInt("VERIF_SUBJLEN", 3)), func(rng *rand.Rand, d int) string { return c27Gen(rng, d) })
+}
+
+func c27Run(t *testing.T, subjects []string, gen func(*rand.Rand, int) string) {
 	tr := verifkit.Open(t)
 	defer tr.Close()
 	tr.Emit(corpus.FoldEvent())
-	maxLen := verifkit.EnvInt("VERIF_SUBJLEN", 3)
-	subjects := c27Subjects(maxLen)
 	sj := [][]int{}
 	for _, s := range subjects {
 		sj = append(sj, verifkit.Runes(s))
@@ -124,7 +198,7 @@ func TestVerif_C27_Regex(t *testing.T) {
 	emitted := 0
 	for i := 0; emitted < n && i < 50*n; i++ {
 		rng := verifkit.Rng(int64(i))
-		src := c27Gen(rng, 1+rng.Intn(3))
+		src := gen(rng, 1+rng.Intn(3))
 		if seen[src] {
 			continue
 		}
